@@ -100,7 +100,7 @@ def install_clock():
         real.date = FakeDate
 
 
-def make_env(which: int, partials: dict):
+def make_env(which: int, partials: dict, shared=None):
     """Environment 1 reads a plain DictLoader over `partials` (edits of the dict are loader
     contents, every load is a loader call); Environment 2 caches."""
     from liquid2 import CachingDictLoader, DictLoader, Environment
@@ -115,11 +115,13 @@ def make_env(which: int, partials: dict):
         async def get_source_async(self, env, template_name, **kw):
             return self.get_source(env, template_name, **kw)
 
-    if which == 1:
+    if shared is not None:
+        loader = shared                          # Environment 3 reads through Environment 2's loader object
+    elif which == 1:
         loader = CountingLoader(partials)        # the dict itself: later edits are seen
     else:
         loader = CachingDictLoader(dict(partials))
-    env = Environment(loader=loader, globals={"envname": f"env{which}"})
+    env = Environment(loader=loader, globals={"envname": f"env{which}"}, auto_escape=(which == 3))
     if which == 2:
         # a differently configured environment: its own filter and a changed built-in
         env.filters["upcase"] = lambda s: f"<{s}>"
@@ -202,6 +204,8 @@ def replay(ops, pool, partials):
     version = {1: 1, 2: 1}
     stores = {1: contents(1), 2: contents(1)}
     envs = {1: make_env(1, stores[1]), 2: make_env(2, stores[2])}
+    envs[3] = make_env(3, stores[2], shared=envs[2].loader)
+    version[3] = 1
     cache: dict = {}
     for i, op in enumerate(ops):
         if op["op"] == "tick":
@@ -259,7 +263,7 @@ def pristine_table(pool, partials) -> dict:
     (module-level memos, class attributes) cannot hide in it."""
     import multiprocessing as mp
     # (a template that shows the clock gets a process per clock value: a memo would carry one value into the next)
-    jobs = [(e, t_id, d, version, pool, partials, tick) for e in (1, 2) for t_id in range(1, len(pool) + 1) for d in (1, 2) for version in (1, 2)
+    jobs = [(e, t_id, d, version, pool, partials, tick) for e in (1, 2, 3) for t_id in range(1, len(pool) + 1) for d in (1, 2) for version in (1, 2)
             if version == 1 or (e == 1 and pool[t_id - 1]["loads"])
             for tick in (range(MAX_TICKS + 1) if pool[t_id - 1]["clocked"] else [None])]
     table = {}
@@ -291,13 +295,15 @@ def check(tier: str) -> int:
                         "TLC, Json/IOUtils modules, CPython"]
     thorough = tier == "thorough"
     seq = '{"call", "tick", "edit"}'
-    ALL = {"TSet": "{}", "DSet": "{}"}
+    ALL = {"TSet": "{}", "DSet": "{}", "ESet": "{1, 2}"}
     runs = [("exhaustive", dict(ALL, MaxOps="2", MaxFault="2" if thorough else "1", Kinds=seq, MaxSched="0"), None),
+            # Environments 2 and 3 use one caching loader object: every pair of calls on them (triples in the thorough tier on what loads)
+            ("shared-loader", {"MaxOps": "2", "MaxFault": "0", "Kinds": '{"call"}', "MaxSched": "0", "TSet": "{}", "DSet": "{}" if thorough else "{1}", "ESet": "{2, 3}"}, None),
             # call - tick - call on the templates that show the clock; call - edit - call on those that load partials
-            ("clock", {"MaxOps": "3", "MaxFault": "0", "Kinds": '{"call", "tick"}', "MaxSched": "0", "TSet": "{6, 7, 14}", "DSet": "{}" if thorough else "{1}"}, None),
-            ("loader", {"MaxOps": "3", "MaxFault": "1" if thorough else "0", "Kinds": '{"call", "edit"}', "MaxSched": "0", "TSet": "{4, 5, 9, 12}", "DSet": "{1}"}, None),
-            ("pairs", dict(ALL, MaxOps="1", MaxFault="0", Kinds='{"pair"}', MaxSched="6" if thorough else "5"), None),
-            ("random", dict(ALL, MaxOps="8" if thorough else "6", MaxFault="3", Kinds='{"call", "tick", "edit", "pair"}', MaxSched="4"),
+            ("clock", {"MaxOps": "3", "MaxFault": "0", "Kinds": '{"call", "tick"}', "MaxSched": "0", "TSet": "{6, 7, 14}", "DSet": "{}" if thorough else "{1}", "ESet": "{1, 2}"}, None),
+            ("loader", {"MaxOps": "3", "MaxFault": "1" if thorough else "0", "Kinds": '{"call", "edit"}', "MaxSched": "0", "TSet": "{4, 5, 9, 12}", "DSet": "{1}", "ESet": "{1, 2}"}, None),
+            ("pairs", dict(ALL, ESet="{1, 2, 3}", MaxOps="1", MaxFault="0", Kinds='{"pair"}', MaxSched="6" if thorough else "5"), None),
+            ("random", dict(ALL, ESet="{1, 2, 3}", MaxOps="8" if thorough else "6", MaxFault="3", Kinds='{"call", "tick", "edit", "pair"}', MaxSched="4"),
              f"num={6000 if thorough else 1500}")]
     table = None
     for label, c, sim in runs:
@@ -338,9 +344,9 @@ def check(tier: str) -> int:
         if hists:
             chk.cov["samples"].append({"history": hists[0]})
     # non-vacuity: each named deviation is refuted by TLC
-    for dev, kinds, sched in (("DateMemo", '{"call", "tick"}', "0"), ("PartialMemo", '{"call", "edit"}', "0"), ("SharedNode", '{"pair"}', "3")):
+    for dev, kinds, sched in (("DateMemo", '{"call", "tick"}', "0"), ("PartialMemo", '{"call", "edit"}', "0"), ("SharedNode", '{"pair"}', "3"), ("SharedLoader", '{"call"}', "0")):
         r = tlc.run("LiquidHistory", tlc.cfg_text(constants={"MaxOps": "3", "MaxFault": "0", "Dev": '{"%s"}' % dev, "Focus": '"h"',
-                                                             "Kinds": kinds, "MaxSched": sched, "TSet": "{}", "DSet": "{}"},
+                                                             "Kinds": kinds, "MaxSched": sched, "TSet": "{}", "DSet": "{}", "ESet": "{1, 2, 3}"},
                                                   invariants=["HistoryIndependent"]), tag="history-dev", timeout=1200)
         try:
             if not r.invariant_violated:
@@ -355,7 +361,7 @@ def replay_file(path: str) -> int:
     from . import tlc as _t
     d = json.load(open(path))
     rec = d["record"]
-    r = _t.run("LiquidHistory", _t.cfg_text(constants={"MaxOps": "0", "MaxFault": "0", "Dev": "{}", "Focus": '"h"', "Kinds": "{}", "MaxSched": "0", "TSet": "{}", "DSet": "{}"},
+    r = _t.run("LiquidHistory", _t.cfg_text(constants={"MaxOps": "0", "MaxFault": "0", "Dev": "{}", "Focus": '"h"', "Kinds": "{}", "MaxSched": "0", "TSet": "{}", "DSet": "{}", "ESet": "{1, 2, 3}"},
                                             invariants=["ExportPool"]), tag="pool")
     meta = json.loads((r.workdir / "pool.json").read_text().splitlines()[0])
     r.cleanup()
